@@ -1106,7 +1106,7 @@ class Unit:
         disp = display or (name if not within else '%s::%s' % (re.sub(r'^impl(<[^>]*>)?\s*', '', norm_ws(within)), name))
         # --- rewrites ---
         r6_pin_receiver(sig)
-        sig.sub_code('R7', r'^\s*pub(\(crate\))?\s+', lambda m: m.group(0)[:len(m.group(0)) - len(m.group(0).lstrip())])
+        sig.sub_code('R7', r'^\s*pub(\((?:crate|super|in [\w:]+)\))?\s+', lambda m: m.group(0)[:len(m.group(0)) - len(m.group(0).lstrip())])
         r5_mut_self(sig, body)
         r5_mut_params_async(sig, body)
         r1_name_result(sig)
